@@ -129,6 +129,7 @@ pub fn check(c: &Case) -> CheckResult {
     for cl in &c.clips {
         apply(&mut dt, cl);
     }
+    harmless_prelude(&mut dt, (w * 7 + h * 13 + c.clips.len() as i32 * 5) as u32 + c.early_pop as u32);
     let before = dt.get_data().to_vec();
     if before != c.init {
         return Err("pushing clips changed pixels".into());
